@@ -36,7 +36,8 @@ REQUIRED = ["programs", "steps_checked", "timed_resumes", "select_timeouts",
             "programs_natural_drive", "natural_select_timeouts",
             "nested_subtask_returns", "nested_subtask_raises",
             "late_started_timers", "absolute_timers", "tasks_raised_non_exception",
-            "select_with_non_list_collections"]
+            "select_with_non_list_collections",
+            "timer_callbacks_returning_a_value"]
 TIMEOUT = {"quick": 1200, "thorough": 9000}
 
 _st = {}
@@ -301,6 +302,7 @@ def run_program (case, rep):
     yield False
 
   timers = []
+  TIMER_RETURNS = [None, True, 0, 0.0, "", 1, (), 0j]
   def make_timer (spec):
     fires = []
     tm = dict(spec=spec, fires=fires, created=clock.now, cancelled_at=None)
@@ -309,6 +311,11 @@ def run_program (case, rep):
       rep.count("timer_fires")
       if spec.get("stop_after") and len(fires) >= spec["stop_after"]:
         return False
+      # only the object False asks a self-stoppable timer to stop; other
+      # return values (a count of 0, an empty result, ...) are just results
+      rv = TIMER_RETURNS[spec.get("ret", 0)]
+      if rv is not None: rep.count("timer_callbacks_returning_a_value")
+      return rv
     if spec.get("absolute"):
       # fire at a wall-clock instant (one-shot only)
       t = rc.Timer(clock.now + spec["interval"], cb, absoluteTime=True,
@@ -553,6 +560,7 @@ def gen_random (rng, n):
       elif r < 0.6: sp["start_delay"] = rng.choice([0.5, 2, 5, 11])
       elif r < 0.7 and not rec: sp["absolute"] = True
       if rec and rng.random() < 0.3: sp["stop_after"] = rng.randrange(1, 5)
+      if rng.random() < 0.5: sp["ret"] = rng.randrange(8)
       timers.append(sp)
     # a task that blocks on a wake which arrives only after another task died
     yield dict(epoll=False, tasks=tasks, timers=timers)
